@@ -295,6 +295,10 @@ impl Builder {
         match idx {
             Some(idx) => {
                 if idx < self.module.functions.len() {
+                    if self.selected_function != Some(idx) {
+                        // the selected block belongs to the previously selected function
+                        self.selected_block = None;
+                    }
                     self.selected_function = Some(idx);
                     Ok(())
                 } else {
@@ -381,6 +385,8 @@ impl Builder {
             None,
             vec![],
         ));
+        // a block of the ended function must not stay selected
+        self.selected_block = None;
         self.selected_function = None;
         Ok(())
     }
